@@ -48,8 +48,12 @@ Monitors
 Violation keys (mechanisms): baker_hubbard:{missing,spurious}[periodic|plain][:freq-tie], baker_hubbard:reported-non-candidate:<why>,
 wernet_nilsson:..., kabsch_sander:{missing-bond,spurious-bond,wrong-partner,energy-value,...},
 kabsch_sander:H-built-from-xyz[-1]-when-preceding-residue-lacks-C-or-O (context dependence confined to donors whose
-preceding residue has no C or no O: ks_assign_hydrogens indexes xyz[3*(-1)]), kabsch_sander:output-depends-on-other-frames
-(any other context dependence).
+preceding residue has no C or no O: ks_assign_hydrogens indexed xyz[3*(-1)], i.e. the last atom of the previous frame or
+memory in front of the array; repaired in /repo by "fix: kabsch_sander read coordinates outside the frame when the
+preceding residue has no C/O" -- the code now puts H on N there; the key stays as the regression monitor and fires again
+when that commit is reverted), kabsch_sander:output-depends-on-other-frames (any other context dependence).
+Donors of that class (and first residues of later chains) still have no *documented* hydrogen position and stay out
+of ks.bond-set / ks.energy.
 """
 from __future__ import annotations
 
@@ -72,7 +76,7 @@ WORKERS = {"quick": 8, "thorough": 16}
 BUDGET = {"quick": 60, "thorough": 900}
 ENV = {"OMP_WAIT_POLICY": "PASSIVE"}
 GROUPS = {"quick": [dict(name="asan", flavour="asan", workers=1)],
-          "thorough": [dict(name="asan", flavour="asan", workers=1)]}
+          "thorough": [dict(name="asan", flavour="asan", workers=2)]}
 FLOORS = {"quick": {"bh.present": 120, "bh.absent": 40000, "wn.present": 600, "wn.absent": 250000, "ks.bond-set": 4500,
                     "ks.energy": 2000, "ks.structure": 140, "ks.frame-context": 40, "ks.junk-differential": 40,
                     "oracle.selfcheck": 900},
@@ -105,7 +109,7 @@ SOURCES = {
     "synthetic": "bh wn",
 }
 BIG_KS = {"4ZUO.pdb": "ks", "1ncw.pdb.gz": "ks"}
-NCASES = {"quick": 208, "thorough": 5200}
+NCASES = {"quick": 208, "thorough": 9600}
 KINDS = ["bh", "bh", "bh", "wn", "wn", "ks", "ks", "ks"]
 FREQS = [0.0, 0.1, 0.5, 0.9, 1.0]
 MAX_ATOMS = {"quick": 650, "thorough": 1100}
@@ -120,11 +124,15 @@ def _sources_for(kind, tier):
 
 def gen_cases(tier, seed):
     n = NCASES[tier]
+    n_ks = 0
     for i in range(n):
         rng = common.rng_for("C14", seed, i)
-        kind = KINDS[i % len(KINDS)]
+        # the kind rotates within every worker's share (i % n_workers) so that the heavier Kabsch-Sander cases spread
+        kind = KINDS[(i + i // 16) % len(KINDS)]
         srcs = _sources_for(kind, tier)
-        src = srcs[(i // len(KINDS)) % len(srcs)] if rng.random() < 0.7 else srcs[int(rng.integers(len(srcs)))]
+        # half stratified (7 i + i//16 = 113 m + 7 w for i = 16 m + w: walks through every source within each worker's
+        # share), half random
+        src = srcs[(7 * i + i // 16) % len(srcs)] if rng.random() < 0.5 else srcs[int(rng.integers(len(srcs)))]
         c = dict(i=i, seed=common.case_seed(seed, "C14", i), kind=kind, src=src, tier=tier,
                  n_frames=int(rng.choice([1, 1, 2, 3, 4, 5, 8, 10, 10, 16, 20, 30])),
                  noise=float(rng.choice([0.0, 0.0, 0.002, 0.01, 0.02, 0.05])),
@@ -146,7 +154,9 @@ def gen_cases(tier, seed):
             c["cell"] = "none" if rng.random() < 0.8 else c["cell"]
         yield c
         # a thin slice of the Kabsch-Sander cases also rides in the sanitizer build (negative-index reads = leads)
-        if kind == "ks" and i % 24 == 5:
+        if kind == "ks":
+            n_ks += 1
+        if kind == "ks" and n_ks % (8 if tier == "quick" else 16) == 1:
             d = dict(c)
             d["group"] = "asan"
             yield d
@@ -378,6 +388,12 @@ def _edit_ks(rng, spec, ctx):
             # deleting every atom of a residue would renumber residues: keep_atoms handles it
             spec.keep_atoms([k for k in range(na) if k not in kill])
             nres = len(spec.residues)
+    if rng.random() < 0.25:
+        # compressed copy: more CO groups compete for each NH (best-two bookkeeping with three and more candidates)
+        sc = float(rng.uniform(0.55, 0.9))
+        c0 = spec.xyz.mean(axis=1, keepdims=True)
+        spec.xyz = c0 + sc * (spec.xyz - c0)
+        ctx.observe("edit", "compressed")
     if rng.random() < 0.3:
         # CA atoms pulled away from their residue: bonded CO/NH groups whose CA-CA distance straddles the 0.9 nm prefilter
         cas = [k for k, a in enumerate(spec.atoms) if a[0] == "CA"]
